@@ -22,7 +22,8 @@ import (
 // C19 — client retries are bounded and respect idempotency.
 //
 // Each case runs HostClient.Do / DoTimeout against a Dial function that hands out in-memory pipe connections whose
-// server side injects the scripted fault of that attempt:
+// server side injects the scripted fault of that attempt (attempts may go over freshly dialled connections or over
+// idle keep-alive connections left in the pool by preceding successful requests):
 //   D dial error            W connection closed before the request is written
 //   E close after reading the request (EOF before the response)
 //   P partial response head B partial response body
@@ -42,8 +43,9 @@ var errC19Dial = errors.New("c19: scripted dial error")
 
 type c19Run struct {
 	hung      bool // the call did not return within the watchdog limit (connections were then torn down)
-	dials     int
-	conns     int
+	dials     int  // attempts observed: dials made + pooled connections the client wrote the request to
+	conns     int  // of those, attempts that had a connection to write to
+	pooled    int  // attempts that went over a connection taken from the idle pool
 	heads     int64
 	served    []byte // fault letter served per attempt
 	errClass  string
@@ -54,6 +56,7 @@ type c19Run struct {
 	t0        time.Time
 	elapsed   time.Duration
 	slow      bool
+	warmErr   string
 }
 
 func c19Table(t []byte, k int) (reset, retry bool) {
@@ -71,74 +74,218 @@ func c19Table(t []byte, k int) (reset, retry bool) {
 	return false, false
 }
 
-func c19Serve(s net.Conn, f byte, heads *int64, wg *sync.WaitGroup) {
-	defer wg.Done()
+// c19World is the scripted peer of one case: it numbers the attempts of the measured request in the order in which
+// the client starts them (a dial, or the first write to a connection taken from the idle pool) and gives each the
+// next fault of the script.
+type c19World struct {
+	mu       sync.Mutex
+	r        *c19Run
+	script   []byte
+	measured bool // the warm-up phase is over
+	pipes    []*fasthttputil.PipeConns
+	wg       sync.WaitGroup
+	warmGate map[*c19ConnState]chan struct{}
+	warmSeen chan *c19ConnState
+}
+
+type c19ConnState struct {
+	fault    byte // 0 = none assigned yet
+	assigned bool
+	pc       *fasthttputil.PipeConns
+}
+
+// nextFault numbers a new attempt (caller holds w.mu).
+func (w *c19World) nextFault(pooled bool) byte {
+	k := w.r.dials
+	w.r.dials++
+	w.r.dialTimes = append(w.r.dialTimes, time.Since(w.r.t0))
+	f := byte('O')
+	if k < len(w.script) {
+		f = w.script[k]
+	}
+	w.r.served = append(w.r.served, f)
+	if f != 'D' {
+		w.r.conns++
+	}
+	if pooled {
+		w.r.pooled++
+	}
+	return f
+}
+
+// c19Conn is the client end of a pipe; it sees when the client starts using a pooled connection for the measured request.
+type c19Conn struct {
+	net.Conn
+	w  *c19World
+	st *c19ConnState
+}
+
+var errC19Closed = errors.New("c19: connection was closed by the peer")
+
+func (c *c19Conn) Write(p []byte) (int, error) {
+	c.w.mu.Lock()
+	if c.w.measured && !c.st.assigned {
+		// a connection from the idle pool is being reused for the measured request
+		c.st.assigned = true
+		c.st.fault = c.w.nextFault(true)
+	}
+	f := c.st.fault
+	c.w.mu.Unlock()
+	if f == 'W' {
+		c.st.pc.Close()
+		return 0, errC19Closed
+	}
+	return c.Conn.Write(p)
+}
+
+func (w *c19World) dial(string) (net.Conn, error) {
+	w.mu.Lock()
+	st := &c19ConnState{}
+	if w.measured {
+		st.assigned = true
+		st.fault = w.nextFault(false)
+	}
+	f := st.fault
+	if f == 'D' {
+		w.mu.Unlock()
+		return nil, errC19Dial
+	}
+	pc := fasthttputil.NewPipeConns()
+	st.pc = pc
+	w.pipes = append(w.pipes, pc)
+	w.mu.Unlock()
+	w.wg.Add(1)
+	go w.serve(pc.Conn2(), st)
+	return &c19Conn{Conn: pc.Conn1(), w: w, st: st}, nil
+}
+
+// serve is the peer of one connection: warm-up requests are answered keep-alive, the measured request gets the
+// fault assigned to this connection's attempt.
+func (w *c19World) serve(s net.Conn, st *c19ConnState) {
+	defer w.wg.Done()
 	defer s.Close()
 	br := bufio.NewReader(s)
-	var rq fasthttp.Request
-	if err := rq.Read(br); err != nil {
+	for {
+		var rq fasthttp.Request
+		if err := rq.Read(br); err != nil {
+			return
+		}
+		if string(rq.URI().Path()) == "/warm" {
+			w.mu.Lock()
+			gate := w.warmGate[st]
+			if gate == nil {
+				gate = make(chan struct{})
+				w.warmGate[st] = gate
+			}
+			w.mu.Unlock()
+			w.warmSeen <- st
+			<-gate
+			if _, err := s.Write([]byte("HTTP/1.1 200 OK\r\nContent-Length: 2\r\n\r\nok")); err != nil {
+				return
+			}
+			continue
+		}
+		atomic.AddInt64(&w.r.heads, 1)
+		w.mu.Lock()
+		f := st.fault
+		w.mu.Unlock()
+		big := bytes.Repeat([]byte("x"), 100)
+		switch f {
+		case 'E':
+		case 'P':
+			s.Write([]byte("HTTP/1.1 200 OK\r\nContent-Le"))
+		case 'B':
+			s.Write([]byte("HTTP/1.1 200 OK\r\nContent-Length: 10\r\n\r\nabc"))
+		case 'L':
+			s.Write(append([]byte("HTTP/1.1 200 OK\r\nContent-Length: 100\r\n\r\n"), big...))
+		case 'K':
+			s.Write(append(append([]byte("HTTP/1.1 200 OK\r\nTransfer-Encoding: chunked\r\n\r\n64\r\n"), big...), []byte("\r\n0\r\n\r\n")...))
+		case 'I':
+			s.Write(append([]byte("HTTP/1.1 200 OK\r\nConnection: close\r\n\r\n"), big...))
+		case 'H':
+			io.Copy(io.Discard, br) // until the client gives up and closes
+		default:
+			s.Write([]byte("HTTP/1.1 200 OK\r\nContent-Length: 2\r\nConnection: close\r\n\r\nok"))
+		}
 		return
-	}
-	atomic.AddInt64(heads, 1)
-	big := bytes.Repeat([]byte("x"), 100)
-	switch f {
-	case 'E':
-	case 'P':
-		s.Write([]byte("HTTP/1.1 200 OK\r\nContent-Le"))
-	case 'B':
-		s.Write([]byte("HTTP/1.1 200 OK\r\nContent-Length: 10\r\n\r\nabc"))
-	case 'L':
-		s.Write(append([]byte("HTTP/1.1 200 OK\r\nContent-Length: 100\r\n\r\n"), big...))
-	case 'K':
-		s.Write(append(append([]byte("HTTP/1.1 200 OK\r\nTransfer-Encoding: chunked\r\n\r\n64\r\n"), big...), []byte("\r\n0\r\n\r\n")...))
-	case 'I':
-		s.Write(append([]byte("HTTP/1.1 200 OK\r\nConnection: close\r\n\r\n"), big...))
-	case 'H':
-		io.Copy(io.Discard, br) // until the client gives up and closes
-	default:
-		s.Write([]byte("HTTP/1.1 200 OK\r\nContent-Length: 2\r\nConnection: close\r\n\r\nok"))
 	}
 }
 
-// c19Exec runs the real client once.
-func c19Exec(method string, maxA int, bodyStream bool, rif, rife, rifu []byte, tmo byte, script []byte) *c19Run {
+// warmUp leaves `warm` (0..2) idle keep-alive connections in the client's pool, each having served one request.
+func (w *c19World) warmUp(hc *fasthttp.HostClient, warm int) string {
+	one := func() error {
+		var req fasthttp.Request
+		var resp fasthttp.Response
+		req.SetRequestURI("http://c19.test/warm")
+		return hc.DoTimeout(&req, &resp, c19Watchdog)
+	}
+	open := func(st *c19ConnState) {
+		w.mu.Lock()
+		close(w.warmGate[st])
+		w.mu.Unlock()
+	}
+	seen := func() *c19ConnState {
+		select {
+		case st := <-w.warmSeen:
+			return st
+		case <-time.After(c19Watchdog):
+			return nil
+		}
+	}
+	switch warm {
+	case 1:
+		errc := make(chan error, 1)
+		go func() { errc <- one() }()
+		st := seen()
+		if st == nil {
+			return "warm-up request never reached the peer"
+		}
+		open(st)
+		if err := <-errc; err != nil {
+			return err.Error()
+		}
+	case 2:
+		// the first connection is kept busy (its answer withheld) so that the second request has to dial another one
+		errA, errB := make(chan error, 1), make(chan error, 1)
+		go func() { errA <- one() }()
+		stA := seen()
+		if stA == nil {
+			return "warm-up request never reached the peer"
+		}
+		go func() { errB <- one() }()
+		stB := seen()
+		if stB == nil {
+			open(stA)
+			return "second warm-up request never reached the peer"
+		}
+		open(stB)
+		if err := <-errB; err != nil {
+			open(stA)
+			return err.Error()
+		}
+		open(stA)
+		if err := <-errA; err != nil {
+			return err.Error()
+		}
+	}
+	return ""
+}
+
+// c19Exec runs the real client once: `warm` successful keep-alive requests first (they leave idle connections in the
+// pool), then the measured request whose attempts get the scripted faults.
+func c19Exec(method string, maxA int, bodyStream bool, rif, rife, rifu []byte, tmo byte, script []byte, warm int) *c19Run {
 	r := &c19Run{}
-	var mu sync.Mutex
-	var wg sync.WaitGroup
-	var pipes []*fasthttputil.PipeConns
+	w := &c19World{r: r, script: script, warmGate: map[*c19ConnState]chan struct{}{}, warmSeen: make(chan *c19ConnState, 4)}
+	mu := &w.mu
 	hc := &fasthttp.HostClient{
 		Addr:                      "c19.test:80",
 		MaxIdemponentCallAttempts: maxA,
 		MaxResponseBodySize:       c19MaxBody,
-		Dial: func(string) (net.Conn, error) {
-			mu.Lock()
-			k := r.dials
-			r.dials++
-			r.dialTimes = append(r.dialTimes, time.Since(r.t0))
-			f := byte('O')
-			if k < len(script) {
-				f = script[k]
-			}
-			r.served = append(r.served, f)
-			if f != 'D' {
-				r.conns++
-			}
-			mu.Unlock()
-			if f == 'D' {
-				return nil, errC19Dial
-			}
-			pc := fasthttputil.NewPipeConns()
-			mu.Lock()
-			pipes = append(pipes, pc)
-			mu.Unlock()
-			if f == 'W' {
-				pc.Conn2().Close()
-				return pc.Conn1(), nil
-			}
-			wg.Add(1)
-			go c19Serve(pc.Conn2(), f, &r.heads, &wg)
-			return pc.Conn1(), nil
-		},
+		MaxIdleConnDuration:       time.Hour,
+		Dial:                      w.dial,
+	}
+	if e := w.warmUp(hc, warm); e != "" {
+		r.warmErr = e
 	}
 	note := func(attempts int) {
 		mu.Lock()
@@ -187,7 +334,10 @@ func c19Exec(method string, maxA int, bodyStream bool, rif, rife, rifu []byte, t
 	} else if method != "GET" && method != "HEAD" {
 		req.SetBodyString("a=1")
 	}
+	mu.Lock()
+	w.measured = true
 	r.t0 = time.Now()
+	mu.Unlock()
 	done := make(chan struct{})
 	go func() {
 		defer close(done)
@@ -207,7 +357,7 @@ func c19Exec(method string, maxA int, bodyStream bool, rif, rife, rifu []byte, t
 		r.hung = true
 		for stop := false; !stop; {
 			mu.Lock()
-			for _, pc := range pipes {
+			for _, pc := range w.pipes {
 				pc.Close()
 			}
 			mu.Unlock()
@@ -220,7 +370,12 @@ func c19Exec(method string, maxA int, bodyStream bool, rif, rife, rifu []byte, t
 	}
 	r.elapsed = time.Since(r.t0)
 	hc.CloseIdleConnections()
-	wg.Wait()
+	mu.Lock()
+	for _, pc := range w.pipes {
+		pc.Close()
+	}
+	mu.Unlock()
+	w.wg.Wait()
 	switch {
 	case r.err == nil:
 		r.errClass = "nil"
@@ -270,12 +425,13 @@ func init() {
 		Rule: "fault scripts (one fault per attempt: dial error, closed before write, EOF before response, partial head, partial body, oversized body in three framings, hang, ok) " +
 			"x methods {GET HEAD PUT POST DELETE PATCH OPTIONS} x MaxIdemponentCallAttempts {unset,-1,1..7} x body stream x RetryIf/RetryIfErr/RetryIfErrUpstream answer tables (incl. resetTimeout) x {Do, DoTimeout large, DoTimeout small with hanging peer}; " +
 			"thorough: exhaustive scripts of length <=5 over 6 faults x 4 methods x 6 callback configurations x 4 limits; quick: a random sample plus directed cases; " +
-			"the server side counts request heads received. non-trivial = at least one failing attempt with retry=true; distinct = distinct input",
+			"every shape is run on freshly dialled connections and after 1 or 2 successful keep-alive requests, so that the first attempts take REUSED connections from the idle pool; " +
+			"the peer counts the request heads of the measured request across all connections. non-trivial = at least one failing attempt with retry=true; distinct = distinct input",
 		Parallel:   true,
 		Exhaustive: func(t string) bool { return t == "thorough" },
 		NoShrink:   true,
 		Assumptions: []string{
-			"one attempt = one call of HostClient.do; it dials a fresh connection because the client starts with an empty pool and failed connections are closed",
+			"one attempt = one call of HostClient.do = at most one request head on the wire (hypothesis of the transmission theorems, checked: heads received by the peer <= transmitting attempts of the model); attempts are numbered in the order the client starts them (a dial, or the first write to a pooled connection)",
 			"callbacks are modelled as functions of the attempts value they receive (the harness checks that value equals the call number)",
 			"real-time cases (hanging peer, 400 ms request timeout) are discarded and retried when a non-hanging attempt took more than 100 ms",
 			"RoundTrip faults not injectable through a net.Conn pipe (SetWriteDeadline/SetReadDeadline errors, scheme mismatch) are covered by the theorem only",
@@ -296,7 +452,17 @@ func init() {
 			}
 			tmo := a[6][0]
 			script := append([]byte(nil), a[7]...)
+			warm := 0
+			if len(a) >= 9 {
+				warm, err = strconv.Atoi(string(a[8]))
+				if err != nil || warm < 0 || warm > 2 {
+					return nil
+				}
+			}
 			for i, f := range script {
+				if f == 'D' && i < warm {
+					return nil // the first `warm` attempts go over pooled connections: nothing is dialled
+				}
 				if !strings.ContainsRune("DWEPBLKIHO", rune(f)) {
 					return nil
 				}
@@ -310,7 +476,7 @@ func init() {
 			}
 			var r *c19Run
 			for try := 0; try < 3; try++ {
-				r = c19Exec(method, maxA, bs, rif, rife, rifu, tmo, script)
+				r = c19Exec(method, maxA, bs, rif, rife, rifu, tmo, script, warm)
 				if !r.slow {
 					break
 				}
@@ -345,10 +511,13 @@ func init() {
 				}
 			}
 			return &Case{Lines: []string{line}, Impl: impl, Nontrivial: retried || (len(script) > 0 && strings.ContainsRune("WEPBH", rune(script[0]))),
-				Tags: []string{"m-" + method, fmt.Sprintf("attempts-%d", r.dials)},
+				Tags: []string{"m-" + method, fmt.Sprintf("attempts-%d", r.dials), fmt.Sprintf("warm-%d", warm), fmt.Sprintf("pooled-attempts-%d", r.pooled)},
 				Judge: func(rep []string) Verdict {
-					what := fmt.Sprintf("%s maxAttempts=%d bodyStream=%v RetryIf=%q RetryIfErr=%q RetryIfErrUpstream=%q timeout=%c script=%q: served %q, %d request heads received, error %v",
-						method, maxA, bs, rif, rife, rifu, tmo, script, r.served, r.heads, r.err)
+					what := fmt.Sprintf("%s maxAttempts=%d bodyStream=%v RetryIf=%q RetryIfErr=%q RetryIfErrUpstream=%q timeout=%c script=%q after %d keep-alive warm-up request(s): served %q (%d over pooled connections), %d request heads received by the peer, error %v",
+						method, maxA, bs, rif, rife, rifu, tmo, script, warm, r.served, r.pooled, r.heads, r.err)
+					if r.warmErr != "" {
+						return Verdict{VCorr, "warm-up-failed", "the keep-alive warm-up request failed: " + r.warmErr + "; " + what}
+					}
 					if r.hung {
 						return Verdict{VSpec, "call-never-returned", fmt.Sprintf("the call was still blocked after %v; %s", c19Watchdog, what)}
 					}
@@ -405,6 +574,15 @@ func init() {
 					if r.cbArgBad != "" {
 						return Verdict{VSpec, "callback-arguments", r.cbArgBad + "; " + what}
 					}
+					// the hypothesis of the transmission theorems: one RoundTrip puts the request on the wire at most once,
+					// i.e. the peer never sees more request heads than the model has transmitting attempts
+					if i := strings.Index(rep[0], "tx="); i >= 0 {
+						var mtx int
+						fmt.Sscanf(rep[0][i:], "tx=%d", &mtx)
+						if int(r.heads) > mtx {
+							return Verdict{VCorr, "one-transmission-per-attempt", fmt.Sprintf("the peer received %d request heads, the model transmits %d times (%q); %s", r.heads, mtx, rep[0], what)}
+						}
+					}
 					if rep[0] != impl {
 						return Verdict{VCorr, "retry-loop", fmt.Sprintf("impl %q model %q; %s", impl, rep[0], what)}
 					}
@@ -413,12 +591,24 @@ func init() {
 		},
 		Gen: func(r *Rand, tier string, emit func(string, ...[]byte)) {
 			none := []byte("-")
-			emitCase := func(m string, maxA int, bs bool, rif, rife, rifu []byte, tmo byte, script string) {
+			emitW := func(warm int, m string, maxA int, bs bool, rif, rife, rifu []byte, tmo byte, script string) {
 				b := "0"
 				if bs {
 					b = "1"
 				}
-				emit("retry", B(m), N(maxA), B(b), rif, rife, rifu, []byte{tmo}, B(script))
+				sc := []byte(script)
+				for i := range sc {
+					if sc[i] == 'D' && i < warm {
+						sc[i] = 'E' // nothing is dialled for an attempt that takes a pooled connection
+					}
+				}
+				emit("retry", B(m), N(maxA), B(b), rif, rife, rifu, []byte{tmo}, sc, N(warm))
+			}
+			// every directed shape runs on fresh connections and with 1 and 2 idle keep-alive connections in the pool
+			emitCase := func(m string, maxA int, bs bool, rif, rife, rifu []byte, tmo byte, script string) {
+				for warm := 0; warm <= 2; warm++ {
+					emitW(warm, m, maxA, bs, rif, rife, rifu, tmo, script)
+				}
 			}
 			// directed cases: the shapes the statement names
 			for _, m := range methods {
@@ -482,7 +672,7 @@ func init() {
 				if r.Chance(30) {
 					tmo = '1'
 				}
-				emitCase(m, maxA, r.Chance(8), tab("yn"), tab(tabs), tab(tabs), tmo, string(sc))
+				emitW([]int{0, 0, 1, 1, 2}[r.Intn(5)], m, maxA, r.Chance(8), tab("yn"), tab(tabs), tab(tabs), tmo, string(sc))
 			}
 			if tier == "thorough" {
 				// exhaustive: scripts of length <= 5 over 6 faults x 4 methods x 6 callback configurations x 4 limits
@@ -491,9 +681,13 @@ func init() {
 				var rec func(prefix string)
 				rec = func(prefix string) {
 					for _, m := range []string{"GET", "HEAD", "PUT", "POST"} {
-						for _, cb := range cbs {
+						for ci, cb := range cbs {
 							for _, maxA := range []int{0, 1, 2, 4} {
-								emitCase(m, maxA, false, cb[0], cb[1], cb[2], '0', prefix)
+								emitW(0, m, maxA, false, cb[0], cb[1], cb[2], '0', prefix)
+								// the same on a reused pooled connection (first attempt), for half of the callback configurations
+								if ci%2 == 0 && !strings.HasPrefix(prefix, "D") {
+									emitW(1, m, maxA, false, cb[0], cb[1], cb[2], '0', prefix)
+								}
 							}
 						}
 					}
